@@ -5,6 +5,7 @@
 #pragma once
 
 #include <atomic>
+#include "verif_hook.h"
 
 namespace yakushima {
 
@@ -12,9 +13,26 @@ using Epoch = std::uint64_t;
 
 class epoch_management {
 public:
+#ifdef YAKUSHIMA_VERIF
+    static void epoch_inc() {
+        YAKUSHIMA_VERIF_PRE(k_rmw, o_epoch, &epoch_);
+        Epoch old_ = epoch_.fetch_add(1);
+        YAKUSHIMA_VERIF_POST(k_rmw, o_epoch, &epoch_, old_ + 1, 1);
+    }
+#else
     static void epoch_inc() { epoch_.fetch_add(1); }
+#endif
 
+#ifdef YAKUSHIMA_VERIF
+    static Epoch get_epoch() {
+        YAKUSHIMA_VERIF_PRE(k_load, o_epoch, &epoch_);
+        Epoch e_ = epoch_.load(std::memory_order_acquire);
+        YAKUSHIMA_VERIF_POST(k_load, o_epoch, &epoch_, e_, 1);
+        return e_;
+    }
+#else
     static Epoch get_epoch() { return epoch_.load(std::memory_order_acquire); }
+#endif
 
 private:
     /**
